@@ -22,8 +22,93 @@ def nonnull(st: PState, term: str) -> bool:
     return isinstance(n, ast.Constant) and n.value is not None
 
 
+_RENDERERS = {"str", "repr", "json.dumps", "dumps", "isinstance", "len", "type", "bool"}
+
+
+def _unrendered_uses(P: Project, cls, f: FuncInfo, names: set, seen: set):
+    """[(node, why)]: uses of the user's value(s) `names` in `f` that are neither a rendering to text (str/repr/json.dumps,
+    an f-string), a type test, an iteration over it (whose items are the user's too), nor a hand-over to a method of the
+    same class that itself only renders it."""
+    if (f.fq, tuple(sorted(names))) in seen:
+        return []
+    seen = seen | {(f.fq, tuple(sorted(names)))}
+    user = set(names)
+    changed = True
+    while changed:
+        changed = False
+        for n in walk_local(f.node):
+            if isinstance(n, (ast.For, ast.AsyncFor)) and isinstance(n.iter, ast.Name) and n.iter.id in user and isinstance(n.target, ast.Name) and n.target.id not in user:
+                user.add(n.target.id)
+                changed = True
+            if isinstance(n, ast.Assign) and len(n.targets) == 1 and isinstance(n.targets[0], ast.Name) and isinstance(n.value, ast.Name) and n.value.id in user and n.targets[0].id not in user:
+                user.add(n.targets[0].id)
+                changed = True
+    parents = {}
+    for x in ast.walk(f.node):
+        for c_ in ast.iter_child_nodes(x):
+            parents[id(c_)] = x
+    out = []
+    meths = P.methods(cls) if cls is not None else {}
+    for n in walk_local(f.node):
+        if not (isinstance(n, ast.Name) and n.id in user and isinstance(n.ctx, ast.Load)):
+            continue
+        par = parents.get(id(n))
+        if isinstance(par, ast.FormattedValue):
+            continue
+        # under `if isinstance(v, str):` the value is text already
+        is_text = False
+        cur, child = par, n
+        while cur is not None and cur is not f.node:
+            if isinstance(cur, ast.If) and any(child is b for b in cur.body) and ast.unparse(cur.test) in (f"isinstance({n.id}, str)", f"type({n.id}) is str"):
+                is_text = True
+                break
+            child, cur = cur, parents.get(id(cur))
+        if is_text:
+            continue
+        if isinstance(par, (ast.For, ast.AsyncFor)) and par.iter is n:
+            continue
+        if isinstance(par, ast.Assign) and par.value is n:
+            continue  # (renaming, followed above)
+        if isinstance(par, ast.Call) and n in par.args:
+            gp_ = parents.get(id(par))
+            while isinstance(gp_, (ast.BoolOp, ast.UnaryOp)):
+                par_b, gp_ = gp_, parents.get(id(gp_))
+            if isinstance(gp_, (ast.If, ast.IfExp, ast.While)) and any(x is par for x in ast.walk(gp_.test)):
+                continue  # a question asked about the value (`if is_image(v):`), not a use of it
+            if isinstance(gp_, ast.Assign) and len(gp_.targets) == 1 and isinstance(gp_.targets[0], ast.Name):
+                flag = gp_.targets[0].id
+                loads = [x for x in walk_local(f.node) if isinstance(x, ast.Name) and x.id == flag and isinstance(x.ctx, ast.Load)]
+
+                def tested(x):
+                    q = parents.get(id(x))
+                    while isinstance(q, (ast.BoolOp, ast.UnaryOp)):
+                        q = parents.get(id(q))
+                    return isinstance(q, (ast.If, ast.IfExp, ast.While)) and any(y is x for y in ast.walk(q.test))
+
+                if loads and all(tested(x) for x in loads):
+                    continue  # … the answer kept in a flag that is only ever tested
+            cn = call_name(par)
+            if cn in _RENDERERS or cn.split(".")[-1] in ("dumps",):
+                continue
+            if cn.startswith("self.") and cn[5:] in meths:
+                g = meths[cn[5:]]
+                idx = par.args.index(n)
+                gp = [p_ for p_ in g.positional_params() if p_ != "self"]
+                if idx < len(gp):
+                    inner = _unrendered_uses(P, cls, g, {gp[idx]}, seen)
+                    out.extend(inner)
+                    continue
+            out.append((par, f"`{ast.unparse(par)[:60]}` hands the callable's return value to code that does not render it"))
+            continue
+        if isinstance(par, ast.Compare) or isinstance(par, ast.BoolOp) or isinstance(par, ast.UnaryOp) or (isinstance(par, ast.If) and par.test is n) or (isinstance(par, ast.IfExp) and par.test is n):
+            continue
+        out.append((par if par is not None else n, f"`{ast.unparse(par)[:60] if par is not None else n.id}` uses the callable's return value as it is"))
+    return out
+
+
 def check(P: Project, R: Report) -> None:
     R.rule("R1", "in the dispatcher a nullable id never reaches the id of an envelope constructor (whose field is non-Optional) without a dominating `is not None` literal — also inside except blocks")
+    R.rule("R5", "the response can be written: what a registered tool/resource callable returns is the user's and reaches the response only rendered to text (str / json.dumps / an f-string) inside the handler's try — directly or through a method of the server that itself only renders it; the value itself, or a member of it, is never placed in the response")
     R.rule("R2", "containment: under the fallibility model (invoking a registry handler, an envelope constructor fed a nullable id, attribute access on the message without a getattr default) no exception edge leaves handle_message")
     R.rule("R3", "response accounting over all paths: with an id the dispatcher returns exactly one envelope carrying that id (an error it builds itself, or the handler's answer); without an id it returns None as the response")
     R.rule("R4", "codes: handler-lookup miss → -32601, exception from a handler → -32603, unknown tool/resource name → -32602")
@@ -291,6 +376,17 @@ def check(P: Project, R: Report) -> None:
                 trs = [t for t in walk_local(m.node) if isinstance(t, ast.Try) and any(c in list(walk_local(s)) for s in t.body)]
                 ok = bool(trs) and any(h.type is None or ast.unparse(h.type) in ("Exception", "BaseException") for h in trs[-1].handlers)
                 R.ob("R4", f"{name}: the registered callable is invoked inside try/except Exception", ok, f"{m.module.rel}:{c.lineno}", "")
+        # what the registered callable returns is the user's: it reaches the response only rendered to text
+        for c in walk_local(m.node):
+            if isinstance(c, ast.Call) and isinstance(c.func, ast.Subscript) and isinstance(c.func.slice, ast.Constant) and c.func.slice.value == "handler":
+                holders = [s_ for s_ in walk_local(m.node) if isinstance(s_, ast.Assign) and len(s_.targets) == 1 and isinstance(s_.targets[0], ast.Name) and any(x is c for x in ast.walk(s_.value))]
+                for s_ in holders:
+                    bad = _unrendered_uses(P, srv, m, {s_.targets[0].id}, set())
+                    for node_, why_ in bad:
+                        R.ob("R5", f"{name}: the callable's return value is rendered before it is put into the response", False, f"{m.module.rel}:{getattr(node_, 'lineno', c.lineno)}",
+                             f"{why_}: a callable that returns something JSON cannot carry (bytes, a set, an object) then yields a response that cannot be written — the request gets no response line, where a rendered value or the -32603 arm would have answered it")
+                    R.ob("R5", f"{name}: everything the callable returns passes through str()/json.dumps() inside the handler's try", not bad, f"{m.module.rel}:{c.lineno}", f"{len(bad)} unrendered use(s)",
+                         sample=f"R5 {name}: `{s_.targets[0].id}` only reaches the response rendered")
         # lookups of the registry happen only after the unknown-name guard
         for c in walk_local(m.node):
             if isinstance(c, ast.Subscript) and isinstance(c.value, ast.Attribute) and c.value.attr in ("_tools", "_resources") and isinstance(c.ctx, ast.Load) and isinstance(c.slice, ast.Name):
